@@ -24,6 +24,27 @@ CHECKS = {
     "C08": _msg("TLC explores acks, acks of acks and retransmissions (two small messages with 2+2 flushes; a 3-slice message) under any "
                 "loss/reordering; clauses C08_ReleaseSound (a message that left the sender's unacked set was completely handed to the "
                 "peer) and C08_AckSound (every acknowledged sequence number was received); replay + seeded-random ack-loss schedules."),
+    "C06": _msg("TLC injects one abstract hostile packet (every combination of channel right-kind/wrong-kind/absent, message id below/at/above "
+                "the cursor/open reassembly/far, announced slice count, slice index inside/last/one past/far, payload length 0/1/1199/1200/1201, "
+                "hostile acks, undecodable bytes) at any point of a session with an unreliable and a reliable sliced message in flight; clauses "
+                "C06_NoPanic, C06_ProcessedOrDropped, C06_MemoryBounded, C06_StillUsable; exported to bytes and replayed; plus structural "
+                "field-boundary packets, contradictory slice groups, truncations, header-byte replacements and seeded random strings against "
+                "a two-connection server whose second connection must still satisfy the C01-C03 clauses and complete."),
+    "C09": _msg("TLC explores duplicates of slices after consumption, unreliable fragments and retransmission with the observer's own upper "
+                "accounting of what may legitimately be counted: C09_Range, C09_NoLeak (send side: used <= bytes of unreleased messages; "
+                "receive side: rmem <= complete-not-obtained bytes + n*1200 per legitimately open reassembly, unreliable ones closing 3 s after "
+                "their last slice), C09_NoSpuriousDisconnect; replay + seeded-random schedules with tight budgets, ticks around 3000 ms, long runs."),
+    "C11": _msg("MC_Server.tla (RenetServer over one Renet world per client): unicast and broadcast(_except) interleaved with flush / deliver / "
+                "receive over two clients, loss, good rounds; clauses of C01-C03 per (client, direction, channel) stream make cross-delivery, "
+                "duplication and missing broadcast targets visible, C11_NotStarved (a queued message for which the tick's budget still has room "
+                "is not left behind because another channel stalls); replay + seeded-random 2-3 client schedules with one client hostile, "
+                "stalled, disconnected or with a stalled reliable channel."),
+    "C12": _msg("MC_Server.tla: every sequence of up to 5 public calls (add/remove connection, disconnect, set_connected/connecting, transport "
+                "disconnect, get_event, send on a 10-byte channel, flush, deliver, undecodable packet) over two ids; clauses C12_Absorbing, "
+                "C12_Alternation, C12_Reason; every model state replayed; seeded-random call sequences up to 25 calls including local clients."),
+    "C13": _msg("(message layer) TLC explores messages around the packing threshold with ids/sequences across varint width boundaries "
+                "(PacketLen of the wire model <= 1300, no serialization failure); replay; seeded schedules with counters started at 2^6, 2^14, "
+                "2^30, 2^62-400 and up to 150 widely spaced / descending / zig-zag sequence numbers feeding the pending ack ranges."),
     "C14": _msg("TLC explores tight budgets (1200 B with a 2400 B reliable message, 100 B with three 100 B unreliable messages, 150+50 B) "
                 "over several ticks; clauses C14_Bound, C14_Order, C14_UnreliableWhole; replay + seeded-random schedules over all channel "
                 "orders and budgets 0..60000."),
